@@ -72,8 +72,14 @@ func vfC17WaitBound() time.Duration {
 // seen before in this process (vfC17StuckSeen, by goroutine id) and - when the case knows the address
 // of its own weighted semaphore (match) - if that address is the receiver in the blocked frame.
 func vfC17BlockedForGood(match string) string {
-	buf := make([]byte, 1<<20)
-	buf = buf[:runtime.Stack(buf, true)]
+	var buf []byte
+	for size := 1 << 20; ; size *= 8 {
+		buf = make([]byte, size)
+		if n := runtime.Stack(buf, true); n < size || size >= 1<<29 {
+			buf = buf[:n]
+			break
+		}
+	}
 	vfC17StuckMu.Lock()
 	defer vfC17StuckMu.Unlock()
 	for _, g := range strings.Split(string(buf), "\n\n") {
@@ -953,7 +959,11 @@ func TestVerifC17Listener(t *testing.T) {
 		cap0 := rapid.IntRange(1, 4).Draw(rt, "cap0")
 		dialBase := cap0
 		// a listener may be CREATED with any uint32 cap ("4294967295 = no limit"), not only be raised to it
-		if rapid.IntRange(0, 6).Draw(rt, "hugeCap0") == 0 {
+		hugeCreated := rapid.IntRange(0, 19).Draw(rt, "hugeCap0") == 0
+		if os.Getenv("VERIF_C17_NOREFLECT") != "" {
+			hugeCreated = false // needs the done channel of the first change (see below)
+		}
+		if hugeCreated {
 			cap0 = rapid.SampledFrom([]int{4294967295, 4294967295, 2147483648, 20000001, 20000000}).Draw(rt, "hugeCap0Value")
 		}
 		nsteps := rapid.IntRange(3, 12).Draw(rt, "nsteps")
@@ -962,6 +972,17 @@ func TestVerifC17Listener(t *testing.T) {
 			steps[i] = vfC17GenStep(rt, i, dialBase)
 		}
 		public := rapid.IntRange(0, 3).Draw(rt, "viaSetMaxConnection") == 0
+		if hugeCreated {
+			public = false
+		}
+		// A listener created with a cap above 20M is in a special condition until its first capacity
+		// change has been applied: the unchanged tree has two known defects there (Close panics; a
+		// shrink below the usage never ends). While they are listed as known, the case is steered
+		// around them (no close / accept error before the first change; the first change only when
+		// it is not below the usage) so that the search continues behind them - and the first change
+		// is awaited right away, which is where "created huge, then given a real cap" is judged.
+		firstChangePending := cap0 > 20000000
+		steered := false
 		script := fmt.Sprintf("cap0=%d viaSetMaxConnection=%v %v", cap0, public, steps)
 
 		r := &vfC17Rig{ln: vfC17NewLn(), open: map[int]net.Conn{}, closed: map[int]net.Conn{}, acc: make(chan struct{}),
@@ -1001,11 +1022,34 @@ func TestVerifC17Listener(t *testing.T) {
 					toClose = append(toClose, id)
 				}
 			}
+			if firstChangePending && vf.HasKnown(vfC17KeyHugeCreatePanic) && (len(toClose) > 0 || s.AccErr || s.Double > 0) {
+				toClose, s.AccErr, s.Double = nil, false, 0
+				steered = true
+			}
 			doSet := func() {
 				for _, n := range s.SetMax {
 					r.mu.Lock()
 					cnt, infl, last := r.counter, r.inflight, r.lastIssued
+					heldUpper := r.innerOpen + r.closing + 1 + r.pending() // every pending dial may be accepted any moment
 					r.mu.Unlock()
+					if firstChangePending {
+						if heldUpper > n && vf.HasKnown(vfC17KeyHugeCreateShrink) {
+							steered = true
+							continue
+						}
+						r.setMax(n)
+						firstChangePending = false
+						r.mu.Lock()
+						ch := r.changes[len(r.changes)-1]
+						r.mu.Unlock()
+						if heldUpper <= n {
+							vf.Class("listener-created-with-a-cap-above-20M: first run-time change, not below the usage, awaited")
+							if !r.waitFor(func() bool { return ch.seen }) {
+								expired, why = true, "first capacity change of a listener created with a cap above 20M (not below the usage) did not complete"
+							}
+						}
+						continue
+					}
 					if cnt >= 1 {
 						changeWhileOpen = true
 					}
@@ -1073,7 +1117,7 @@ func TestVerifC17Listener(t *testing.T) {
 			r.mu.Lock()
 			nv := len(r.viols)
 			r.mu.Unlock()
-			if nv > 0 {
+			if nv > 0 || expired {
 				break
 			}
 		}
@@ -1104,6 +1148,9 @@ func TestVerifC17Listener(t *testing.T) {
 
 		// statistics
 		vf.Class(fmt.Sprintf("cap0=%d", cap0))
+		if steered {
+			vf.Exclude()
+		}
 		if cap0 > 20000000 {
 			vf.Class("listener-created-with-a-cap-above-20M")
 			if hugeThenLowered > 0 {
